@@ -41,8 +41,11 @@ class C19(Prop):
     id = "C19"
     title = "Fail-stop when the AMF disappears or answers garbage"
     lean_module = "Stgutg.Props.C19"
-    gen = ["script"]
-    theorems = ["Stgutg.Props.C19." + t for t in [
+    extra_modules = ["Stgutg.Props.Glue.stgutg_ManageError", "Stgutg.Props.Glue.stgutg_ManageNGSetup", "Stgutg.Props.Glue.stgutg_RegisterUE", "Stgutg.Props.Glue.stgutg_EstablishPDU", "Stgutg.Props.Glue.stgutg_ServiceRequest", "Stgutg.Props.Glue.stgutg_ReleasePDU", "Stgutg.Props.Glue.stgutg_DeregisterUE"]
+    gen = ["script", "procs"]
+    theorems = ["Stgutg.Props.GluePinned." + t for t in [
+        # the glue functions this property depends on are still the text the models were written from (gen procs)
+        "stgutg_ManageError", "stgutg_ManageNGSetup", "stgutg_RegisterUE", "stgutg_EstablishPDU", "stgutg_ServiceRequest", "stgutg_ReleasePDU", "stgutg_DeregisterUE"]] + ["Stgutg.Props.C19." + t for t in [
         "C19_epilogue", "C19_script_safe", "C19_every_read_and_write_checked", "C19_unchecked_decode_is_discarded",
         "C19_reads_per_procedure", "C19_ignored_read_follows_registration_complete",
         "C19_unchecked_builds_feed_checked_write", "C19_release_only_writes",
